@@ -10,7 +10,7 @@ import (
 	"verif/harness/spec"
 )
 
-var c19Patterns = []string{"silent", "traffic-then-silent", "ping", "publish-only", "trickle"}
+var c19Patterns = []string{"silent", "traffic-then-silent", "ping", "publish-only", "trickle", "silent-mid-packet", "silent-after-header-byte"}
 var c19Fractions = []float64{0.25, 0.5, 0.9, 0.99}
 
 func c19Run(t *testing.T, K int, pattern string, frac float64, idx int) {
@@ -82,6 +82,20 @@ func c19Run(t *testing.T, K int, pattern string, frac float64, idx int) {
 				out.Count("c19.trickle_dropped", 1)
 			}
 		}
+		switch pattern {
+		case "silent-mid-packet":
+			// some traffic, then a PUBLISH that stops in the middle, then nothing
+			sendSome(0)
+			pings++
+			pkt := rc.Encode(&rc.Packet{Type: rc.PUBLISH, Topic: []byte("ka/half"), Payload: spec.MakePayload(9, 0, 60)})
+			c.Send(pkt[:len(pkt)/2])
+			settle()
+			lastByte = time.Now()
+		case "silent-after-header-byte":
+			c.Send([]byte{0x30})
+			settle()
+			lastByte = time.Now()
+		}
 		if got := countType(c.fresh(), rc.PINGRESP); got != pings {
 			fail("c19:pingresp", fmt.Sprintf("%d PINGREQ sent, %d PINGRESP received", pings, got))
 			return
@@ -146,7 +160,7 @@ func TestC19(t *testing.T) {
 	for _, K := range []int{1, 2, 3, 5, 10, 60} {
 		for _, p := range c19Patterns {
 			fr := c19Fractions
-			if p == "silent" {
+			if p == "silent" || p == "silent-mid-packet" || p == "silent-after-header-byte" {
 				fr = []float64{0}
 			}
 			if p == "trickle" {
